@@ -219,7 +219,9 @@ struct Run {
 				for(auto & e : evs) if((ts[thread].emptyMask >> (e.id - 1)) & 1u) {
 					if(e.st == E_CONSUMED) continue;
 					if(takeOrClearInFlight && e.st == E_QUEUED) continue;   // may be in the hands of that call (orientation: weaker)
-					ctx.fail(putBackInFlight ? "reported-empty-while-declined-event-put-back" : "reported-empty-while-pending",
+					// the recorded (open) defect needs the claim to span the put-back, so the event is back in the pending list when the
+					// call returns; a claim made while the event is still held in the processing call's private list is another history
+					ctx.fail(putBackInFlight && !inPending(e.id) ? "reported-empty-while-declined-event-still-held" : putBackInFlight ? "reported-empty-while-declined-event-put-back" : "reported-empty-while-pending",
 						fmt("emptyQueue on thread %d reported an empty queue although event %d, whose enqueue had returned before the call began, was %s", thread, e.id, e.st == E_IN_DISPATCH ? "still being dispatched" : "still pending"));
 				}
 			}
@@ -227,6 +229,15 @@ struct Run {
 			break;
 		}
 		}
+	}
+	bool inPending(int id) {
+		HarnessScope hs;
+#ifdef VERIF_HETER
+		for(auto & x : q->queueList) if(!x.empty() && std::get<0>(x.get<Q::QueuedItem<std::tuple<Tracked> > >().arguments).id == id) return true;
+#else
+		for(auto & x : q->queueList.l) if(!x.empty() && std::get<0>(x.get().arguments).id == id) return true;
+#endif
+		return false;
 	}
 	void runThread(int thread) {
 		int i = 0;
